@@ -6,8 +6,6 @@ import (
 	"sync/atomic"
 	"time"
 
-	clocktesting "k8s.io/utils/clock/testing"
-
 	"github.com/dapr/kit/events/queue"
 )
 
@@ -50,13 +48,10 @@ func runC06(s *sess, closeCloseEnqueue bool) map[string]any {
 	done := 0
 	t0 := time.Date(2024, 1, 1, 0, 0, 0, 0, time.UTC)
 	far := t0.Add(1000000 * time.Hour)
-	watchClock, stopNudger := nudger()
-	defer stopNudger()
 	for round := 0; round < rounds && s.more(); round++ {
 		var g group
 		variant := round + s.seed
-		clk := clocktesting.NewFakeClock(t0)
-		watchClock(clk)
+		clk := newNBClock(t0) // timers that never block the clock and fire at once when already due (nbclock_test.go)
 		var executed atomic.Int64
 		var closedReturned atomic.Bool
 		proc := queue.NewProcessor[string, *qitem](func(it *qitem) {
